@@ -1,5 +1,6 @@
 import QuiverModel.Lemmas.Exec.Error
 import QuiverModel.Lemmas.Exec.SysBridge
+import QuiverModel.Lemmas.Exec.FailChain
 /-
 C15 — Failures are contained and propagate only to awaiters; workers never crash. Property theorems
 only (`C15.<name>`); model: Core/Exec/Error.lean on top of Core/Exec/Select.lean; helper lemmas:
@@ -574,5 +575,65 @@ def FailureReachesAwaitersStatement : Prop :=
       ((QM.Sys.run (QM.Sys.Sys.init n prog req) cs).wk wa).procs a = some x → x.stillAwaiting t = true →
       ((QM.Sys.run (QM.Sys.Sys.init n prog req) cs).wk wt).procs t = some y → y.result = some .err →
       t ∈ x.awaitFailed
+
+/-! ## The failure chain as an invariant of the composed system (round 3) -/
+section FailChain
+open QM.Sys
+
+/-- MISSING LEMMA 1 (positional queue facts + registry location): there is an invariant of the composed
+system — true when evaluation starts, preserved by every micro-step in states satisfying C04's routing /
+wake-up / faithful-answer invariants — that implies: AwaitAction events of an awaiter are handled in
+emission order (`AwaitOrder`), a placeholder at the head of an event queue is backed by a registration or a
+later report (`PlaceholderOrder`), result lists have unique keys, registrations sit at the target's worker
+and a pending await still expects somebody (`FAux`). Candidates: "the LAST AwaitAction of `a` in its queue
+names every target `a` still awaits" and "if the LAST mention of `(a, t)` in worker `w`'s event queue is a
+placeholder then `a ∈ awaiters_for_target[t]` at `w`" (both are stable under popping the head). -/
+def QueueOrderStatement : Prop :=
+  ∃ J : Sys → Prop, (∀ s, Started s → J s) ∧
+    (∀ s m, RInv s → WInv s → TInv s → J s → J (microStep Rules.current s m)) ∧
+    (∀ s, J s → AwaitOrder s ∧ PlaceholderOrder s ∧ EvtKeysNodup s ∧ FAux s)
+
+/-- MISSING LEMMA 2: after every complete choice (a worker step ends with `check_completed_processes`)
+no worker keeps an awaiter registered for a process that has a result. -/
+def CheckedStatement : Prop :=
+  ∀ (n : Nat) (prog : Prog) (req : Nat), 0 < n → ProgWF prog → ∀ (cs : List Choice),
+    PreStart (run (Sys.init n prog req) cs) ∨ Checked (run (Sys.init n prog req) cs)
+
+/-- **The chain invariant over every choice sequence**, from missing lemma 1: every process whose current
+select still awaits `t` knows `t`'s outcome, or an answer is in flight (AwaitAction, QueryAndAwait,
+ProcessResults, the pending merge, UpdateAwaitResults), or it is registered at `t`'s worker. Proved by
+showing that EVERY micro-step keeps it (`Chain.execStep`, `Chain.cmdStep1`, `Chain.checkStep`,
+`Chain.envStep1`). -/
+theorem chain_invariant_partial (hQ : QueueOrderStatement) (n : Nat) (prog : Prog) (req : Nat) (hn : 0 < n)
+    (hwf : ProgWF prog) (cs : List Choice) :
+    PreStart (run (Sys.init n prog req) cs) ∨
+      (RInv (run (Sys.init n prog req) cs) ∧ WInv (run (Sys.init n prog req) cs) ∧ TInv (run (Sys.init n prog req) cs) ∧
+       Chain (run (Sys.init n prog req) cs) ∧ FAux (run (Sys.init n prog req) cs)) := by
+  obtain ⟨J, hJ0, hJs, hJc⟩ := hQ
+  have := invariant_from_init Rules.current (fun s => RInv s ∧ WInv s ∧ TInv s ∧ J s ∧ Chain s)
+    (fun s h => ⟨RInv.of_started h, WInv.of_started h, TInv.of_started h, hJ0 s h, (FInv.of_started h).chain⟩)
+    (fun s m ⟨h1, h2, h3, h4, h5⟩ =>
+      ⟨h1.micro Rules.current_tame m, h2.micro m, h3.micro m, hJs s m h1 h2 h3 h4,
+       Chain.micro h1 h5 ⟨(hJc s h4).1, (hJc s h4).2.1, (hJc s h4).2.2.1⟩ m⟩)
+    n prog req hn hwf cs
+  rcases this with h | ⟨h1, h2, h3, h4, h5⟩
+  · exact Or.inl h
+  · exact Or.inr ⟨h1, h2, h3, h5, (hJc _ h4).2.2.2⟩
+
+/-- **`FailureReachesAwaitersStatement`, from the two missing lemmas** (`_partial`): at quiescence no live
+process still awaits a failed process without having the failure recorded as a ready source of its
+select. Everything else is proved: the chain is kept by every micro-step of the executor, the workers'
+command handling, `check_completed_processes` and the environment (merge, forward, replaced pending
+entries), and at quiescence the chain collapses to "recorded". -/
+theorem failure_reaches_awaiters_partial (hQ : QueueOrderStatement) (hC : CheckedStatement) :
+    FailureReachesAwaitersStatement := by
+  intro n prog req hn hwf cs hq wa wt a t x y hx hs hy hyr
+  rcases chain_invariant_partial hQ n prog req hn hwf cs with h | ⟨h1, h2, h3, h4, h5⟩
+  · rw [preStart_no_awaiting h wa a x t hx] at hs; cases hs
+  · rcases hC n prog req hn hwf cs with h | hck
+    · rw [preStart_no_awaiting h wa a x t hx] at hs; cases hs
+    · exact quiescent_failed_target_is_recorded _ h1 h2 h3 ⟨h4, hck, h5⟩ hq wa wt a t x y hx hs hy hyr
+
+end FailChain
 
 end C15
